@@ -125,6 +125,8 @@ type ReaderSpec struct {
 	Drains     bool  `json:"drains"`
 	Note       string `json:"note,omitempty"`
 	ViaUpgrade bool  `json:"via_upgrade,omitempty"` // Conn made by Upgrader.Upgrade from a hijacked reader (BrSize, Buffered)
+	ViaDial    bool  `json:"via_dial,omitempty"`    // Conn made by Dialer.Dial; the server sends 101 + Chunks' bytes, cut at DialSplit
+	DialSplit  int   `json:"dial_split,omitempty"`
 }
 
 type hErr struct{ id int }
@@ -203,7 +205,43 @@ func readerExec(s core.Spec) core.Exec {
 	var br *bufio.Reader
 	var c *websocket.Conn
 	skipWritten := 0
-	if sp.ViaUpgrade {
+	var rconn *reactConn
+	if sp.ViaDial {
+		var stream []byte
+		for _, ch := range chunks {
+			stream = append(stream, ch...)
+		}
+		d := websocket.Dialer{ReadBufferSize: sp.RBuf, EnableCompression: sp.Negotiated}
+		d.NetDial = func(network, addr string) (net.Conn, error) {
+			rconn = &reactConn{failAt: -1, fault: sp.Fault}
+			rconn.respond = func(req []byte) [][]byte {
+				key := ""
+				if pr, ok := parseRequest(req); ok {
+					if v := pr.Hdr["Sec-Websocket-Key"]; len(v) > 0 {
+						key = v[0]
+					}
+				}
+				resp := "HTTP/1.1 101 Switching Protocols\r\nUpgrade: websocket\r\nConnection: Upgrade\r\nSec-WebSocket-Accept: " + acceptFor(key) + "\r\n"
+				if sp.Negotiated {
+					resp += "Sec-WebSocket-Extensions: permessage-deflate; server_no_context_takeover; client_no_context_takeover\r\n"
+				}
+				resp += "\r\n"
+				all := append([]byte(resp), stream...)
+				k := sp.DialSplit
+				if k > len(all) {
+					k = len(all)
+				}
+				return [][]byte{all[:k], all[k:]}
+			}
+			return rconn, nil
+		}
+		var err error
+		c, _, err = d.Dial("ws://example.com/", nil)
+		if err != nil {
+			return core.Exec{Tape: strconv.Itoa(sp.Prop) + " 999", Tags: []string{"dial-failed"}}
+		}
+		skipWritten = rconn.written.Len()
+	} else if sp.ViaUpgrade {
 		r := &http.Request{Method: "GET", Host: "example.com", Header: http.Header{}, URL: &url.URL{Path: "/"}, Proto: "HTTP/1.1", ProtoMajor: 1, ProtoMinor: 1}
 		r.Header["Connection"] = []string{"Upgrade"}
 		r.Header["Upgrade"] = []string{"websocket"}
@@ -268,9 +306,22 @@ func readerExec(s core.Spec) core.Exec {
 		in.N(x)
 	}
 	in.N(sp.RBuf).N(sp.BrSize).Bytes(sp.Buffered)
-	in.N(len(chunks))
-	for _, ch := range chunks {
-		in.Bytes(ch)
+	if sp.ViaDial {
+		// results of ReadMessage do not depend on chunking (Props/C03): the model gets the stream whole
+		var stream []byte
+		for _, ch := range chunks {
+			stream = append(stream, ch...)
+		}
+		if len(stream) > 0 {
+			in.N(1).Bytes(stream)
+		} else {
+			in.N(0)
+		}
+	} else {
+		in.N(len(chunks))
+		for _, ch := range chunks {
+			in.Bytes(ch)
+		}
 	}
 	in.N(sp.Fault).Bool(sp.Glued)
 
@@ -397,7 +448,11 @@ func readerExec(s core.Spec) core.Exec {
 	}
 	full += " " + h.String()
 	w := core.NewTape(0)
-	w.Bytes(sc.Written()[skipWritten:])
+	if rconn != nil {
+		w.Bytes(rconn.written.Bytes()[skipWritten:])
+	} else {
+		w.Bytes(sc.Written()[skipWritten:])
+	}
 	full += " " + strings.SplitN(w.String(), " ", 2)[1]
 	full += " " + strconv.Itoa(sc.MaxRead)
 	tags = append(tags, core.Tag("fault:%d glued:%v", sp.Fault, sp.Glued), core.Tag("rbuf:%d", sp.RBuf), core.Tag("chunks:%s", countClass(len(chunks))),
